@@ -115,7 +115,51 @@ class Armorable(metaclass=abc.ABCMeta):
         # begins a line and nothing in front of it is a control octet: packet data in front of an armor marker that is
         # part of a literal body holds version, algorithm, length and time octets
         head = bytes(data[:data.find(Armorable.__armor_marker.encode('ascii'))])
-        return head.endswith(b'\n') and re.search(br'[\x00-\x08\x0b\x0c\x0e-\x1f\x7f]', head) is None
+        if not head.endswith(b'\n') or re.search(br'[\x00-\x08\x0b\x0c\x0e-\x1f\x7f]', head) is not None:
+            return False
+
+        # a literal data packet with a file name of 9, 10, 13 or 32 and more octets and a recent time stamp has no
+        # control octet in front of its text: input that is framed as a sequence of packets from its first to its
+        # last octet is that sequence of packets, whatever its literal text holds
+        return not Armorable.__framed_as_packets(data)
+
+    @staticmethod
+    def __framed_as_packets(data):
+        pos, end = 0, len(data)
+        while pos < end:
+            tag = data[pos]
+            pos += 1
+            if not tag & 0x80:
+                return False
+
+            if tag & 0x40:
+                # new format: one-, two- or five-octet length, or a chain of partial lengths
+                partial = True
+                while partial:
+                    if pos >= end:
+                        return False
+                    first = data[pos]
+                    partial = 224 <= first < 255
+                    if first < 192:
+                        pos += 1 + first
+                    elif first < 224:
+                        if pos + 1 >= end:
+                            return False
+                        pos += 2 + ((first - 192) << 8) + data[pos + 1] + 192
+                    elif first == 255:
+                        pos += 5 + int.from_bytes(data[pos + 1:pos + 5], 'big')
+                    else:
+                        pos += 1 + (1 << (first & 0x1f))
+
+            elif tag & 0x03 == 3:
+                # old format, indeterminate length: nothing to check the framing against
+                return False
+
+            else:
+                llen = 1 << (tag & 0x03)
+                pos += llen + int.from_bytes(data[pos:pos + llen], 'big')
+
+        return pos == end
 
     @staticmethod
     def ascii_unarmor(text):
